@@ -40,7 +40,6 @@ import (
 	"github.com/DistCompiler/pgo/distsys/hashmap"
 	"github.com/DistCompiler/pgo/distsys/resources"
 	"github.com/DistCompiler/pgo/distsys/tla"
-	"go.uber.org/multierr"
 )
 
 type attempt struct {
@@ -293,16 +292,31 @@ func hasInt(l []int, x int) bool {
 func classify(err error, panicked interface{}) []string {
 	// an error that a Nested resource's Close reports for a context inside it is a Close error of the outer run,
 	// whatever it wraps
-	var rest error
+	var parts []error
+	if g, ok := err.(interface{ Errors() []error }); ok { // go.uber.org/multierr's aggregate
+		parts = g.Errors()
+	} else if err != nil {
+		parts = []error{err}
+	}
 	nestedErr := false
-	for _, e := range multierr.Errors(err) {
+	set := map[string]bool{}
+	for _, e := range parts {
 		if strings.Contains(e.Error(), "error in nested archetype") {
 			nestedErr = true
-		} else {
-			rest = multierr.Append(rest, e)
+			continue
+		}
+		for _, x := range classify1(e, nil) {
+			set[x] = true
 		}
 	}
-	out := classify1(rest, panicked)
+	for _, x := range classify1(nil, panicked) {
+		set[x] = true
+	}
+	out := []string{}
+	for x := range set {
+		out = append(out, x)
+	}
+	sort.Strings(out)
 	if nestedErr {
 		has := false
 		for _, x := range out {
